@@ -53,6 +53,13 @@ else:
             m = re.match(r'^\+\s*#\[path\s*=\s*"([^"]+)"\]', line)
             if m and tgt:
                 pathmods[m.group(1)] = os.path.dirname(tgt)
+            # a plain `mod x;` added to some other mod.rs: the module file lives next to that file
+            m = re.match(r'^\+\s*(?:#\[[^\]]*\]\s*)?(?:pub(?:\([a-z]+\))? )?mod (\w+);', line)
+            if m and tgt and os.path.dirname(tgt) != "src/vm/tests/mock_tests" and (m.group(1) + ".rs") not in pathmods:
+                pathmods[m.group(1) + ".rs"] = os.path.dirname(tgt)
+                stray = os.path.join(wt, "src/vm/tests/mock_tests", m.group(1) + ".rs")
+                if os.path.exists(stray):
+                    os.remove(stray)
     for f in glob.glob(os.path.join(demo, "*.rs")):
         nm = os.path.basename(f)[:-3]
         if os.path.basename(f) in pathmods:
